@@ -197,6 +197,25 @@ def relay_order():
             steps += [['call', 'B', ending], settle(0.5)]
         steps += [['release_all'], settle(0.5), ['sample']]
         out.append(S(steps, dict(family='relay-order', outcome=ending, expect_complete=False), config={'answer': 'next'}))
+        # the same with the hook held for well over a second after the child has gone (a relay that gives up
+        # waiting for its monitor would let end-run overtake the events still queued)
+        steps = START + [['hold', 'on_end_prompt'], ['call', 'A', 'run'], settle(0.6)]
+        steps += ([['child', 'return']] if ending == 'return' else [['call', 'B', ending]])
+        steps += [['wait_child_exit', 8.0], ['sleep', 2.2], ['release_all'], settle(0.6), ['sample']]
+        out.append(S(steps, dict(family='relay-order', outcome=ending, held='long', expect_complete=False), config={'answer': 'next'}))
+    return out
+
+
+def cancelled_requests():
+    """the task awaiting a run request is cancelled while the run is starting (its on_start_run hooks are held):
+    the run that has begun goes on; no second child may appear and 'finished' only after the child has gone"""
+    out = []
+    for api in ('run', 'run_session', 'run_and_continue'):
+        steps = START + [['hold', 'on_start_run'], ['call', 'A', api], settle(0.4), ['cancel_task', 'A'], settle(0.3), ['sample'],
+                         ['call', 'B', 'reset'], settle(0.2), ['call', 'B', 'run'], settle(0.3), ['sample'],
+                         ['release_all'], settle(0.5), ['child', 'return'], settle(0.5), ['child_reset'],
+                         ['call', 'B', 'reset'], settle(0.2), ['call', 'B', 'run'], settle(0.5), ['child', 'return'], settle(0.5), ['sample']]
+        out.append(S(steps, dict(family='cancelled-request', api=api, expect_complete=False)))
     return out
 
 
